@@ -6,11 +6,11 @@ from . import resolve_common as R
 from .c04 import model_chain
 
 CLAIM = dict(
-    text="Coq theorems on the model of MultiTypeMap[(caller_code, *types)] (Model/Resolve.v lookup_next: the continuation entries resolve() writes, read back through __missing__'s leading-code-object path), for every hierarchy, method list, key and caller: a caller met while walking down single-handler ranks gets the first rank of what lies below it (C07_next_is_below), which is exactly the resolution of the call's candidate list minus the caller and everything ranked above it (C07_next_is_lookup_without_above; the stable sort commutes with removal and _pull restarts clean), on calls whose classes fall under pairwise comparable registered types (every call under single inheritance) that is the documented rule's verdict for the function holding only the remaining methods -- the property's own statement (C07_next_is_reduced_function); and a caller that is not a candidate for the key gets a fresh lookup (C07_foreign_caller). Hence each applicable method is visited at most once, ranks are walked in sort order, the walk ends with 'No method' below the last rank and with the ambiguity where a rank is tied. Tie to /repo: generated programs in which random subsets of methods delegate with call_next; the whole visit order of each outer call is compared with the model's chain, and -- the property oracle, independent of the model -- each step is compared with a fresh function from which the methods visited so far were removed; deviations must be KF-01's (removal changes the levels of unrelated classes: call outside chain_applicable).",
+    text="Coq theorems on the model of MultiTypeMap[(caller_code, *types)] (Model/Resolve.v lookup_next: the continuation entries resolve() writes, read back through __missing__'s leading-code-object path), for every hierarchy, method list, key and caller: a caller met while walking down single-handler ranks gets the first rank of what lies below it (C07_next_is_below), which is exactly the resolution of the call's candidate list minus the caller and everything ranked above it (C07_next_is_lookup_without_above; the stable sort commutes with removal and _pull restarts clean), on calls whose classes fall under pairwise comparable registered types (every call under single inheritance) that is the documented rule's verdict for the function holding only the remaining methods -- the property's own statement (C07_next_is_reduced_function); and a caller that is not a candidate for the key gets a fresh lookup (C07_foreign_caller). The whole walk is C07_walk_in_sorted_order: when every candidate dominates all those sorted after it, the call runs the first, call_next from the i-th runs the (i+1)-th and from the last reports 'No method' (each applicable method at most once, in non-increasing rank); where a rank is tied the walk ends with the ambiguity (C07_next_is_below). Tie to /repo: generated programs in which random subsets of methods delegate with call_next; the whole visit order of each outer call is compared with the model's chain, and -- the property oracle, independent of the model -- each step is compared with a fresh function from which the methods visited so far were removed; deviations must be KF-01's (removal changes the levels of unrelated classes: call outside chain_applicable).",
     note="Trusted: as C02. Outside chain-applicable calls the theorem keeps the specificity tuples of the original call (removing methods can change them: KF-01); dependent ranks are C10's subject.",
     technique="Coq proof (stable-sort/filter commutation, _pull prefix lemma) + differential correspondence of visit orders", design="6 C07")
 
-THEOREMS = ["C07_next_is_below", "C07_next_is_lookup_without_above", "C07_next_is_reduced_function", "C07_foreign_caller"]
+THEOREMS = ["C07_next_is_below", "C07_next_is_lookup_without_above", "C07_next_is_reduced_function", "C07_walk_in_sorted_order", "C07_foreign_caller"]
 ASSUMPTIONS = []
 
 
